@@ -12,11 +12,14 @@
 (* A card *body* is a record                                                *)
 (*   top    : name of the decaying particle                                 *)
 (*   finals : sequence of final-state names                                 *)
-(*   lines  : sequence of decay lines [core, outs <<o1,o2>>, pbreak, ll]    *)
+(*   lines  : sequence of decay lines [core, outs <<o1,o2>>, pbreak,        *)
+(*            cbreak, ll]                                                   *)
 (*            (core / outs are particle names or candidate-slot names,      *)
-(*             ll = l_list as a set, {} = no restriction)                   *)
+(*             ll = l_list as a set, {} = no restriction; cbreak = FALSE    *)
+(*             asks for the C-parity rule C = (-1)^(l+s))                   *)
 (*   cands  : slot name -> sequence of candidate names (named lists)        *)
 (*   qn     : particle name -> <<2J, P>>                                    *)
+(*   cq     : resonance name -> C in {-1, 0, 1} (0 = not given)             *)
 (*   float  : resonance name -> "" | "m" | "g" | "mg"                       *)
 (*   bnd    : set of resonances that carry m_min / m_max                    *)
 (*                                                                          *)
@@ -30,7 +33,7 @@
 (* The card grammar (shape x final-state scheme x J^P assignment x one      *)
 (* option site) is the state space: Init picks a card, the theorems         *)
 (* (WellFormed, SeqIsSet, ChainShape, KeptSubset, DroppedIff,               *)
-(* FlatEquivalent, LineOrder, MirrorSameChains, NamesConsistent; their      *)
+(* FlatEquivalent, LineOrder, MirrorSameChains, CUnused, NamesConsistent; their *)
 (* conjunction is the invariant Theorems) are evaluated per card, and Post  *)
 (* emits every card with what it denotes.                                   *)
 EXTENDS Integers, Sequences, SequencesExt, FiniteSets, TLC, Json, IOUtils
@@ -44,6 +47,8 @@ CONSTANTS
     DecOpts,     \* subset of {"pbreak", "pball", "l0", "l1"}
     ParOpts,     \* subset of {"float_m", "float_g", "float_mg", "bnd", "float_g_bnd", "float_mg_bnd"}
                  \*   (float / m_min, m_max of the first leading resonance)
+    COpts,       \* subset of {"c+", "c-", "cc+", "cc-"}: C = +1/-1 on the first leading resonance,
+                 \*   "cc": together with `c_break: False` on its decay lines (meson schemes only)
     AllLines     \* TRUE: a decay option may sit on any line; FALSE: first and last line only
 
 VARIABLE card
@@ -133,13 +138,14 @@ QNAssign(s, k) ==
     {l @@ r : l \in [Range(ShapeDef(s).lead) -> LeadQN(k)], r \in [Range(ShapeDef(s).rest) -> RestQN(k)]}
 
 OptLines(s) == IF AllLines THEN 1..Len(ShapeDef(s).lines) ELSE {1, Len(ShapeDef(s).lines)}
-Opts(s) ==
+\* the C options need integer s in the decays of the first leading resonance: meson schemes
+Opts(s, sch) ==
     {[kind |-> "none", at |-> 0]}
       \cup {[kind |-> k, at |-> i] : k \in DecOpts \ {"pball"}, i \in OptLines(s)}
-      \cup {[kind |-> k, at |-> 0] : k \in (DecOpts \cap {"pball"}) \cup ParOpts}
+      \cup {[kind |-> k, at |-> 0] : k \in (DecOpts \cap {"pball"}) \cup ParOpts \cup (IF sch = "bar" THEN {} ELSE COpts)}
 
 Cards ==
-    UNION {{[shape |-> s, scheme |-> k, qn |-> q, opt |-> o] : q \in QNAssign(s, k), o \in Opts(s)} :
+    UNION {{[shape |-> s, scheme |-> k, qn |-> q, opt |-> o] : q \in QNAssign(s, k), o \in Opts(s, k)} :
              s \in Shapes, k \in Schemes}
 
 Body(c) ==
@@ -148,15 +154,19 @@ Body(c) ==
         first == sd.lead[1]
         fl == CASE c.opt.kind = "float_m" -> "m" [] c.opt.kind \in {"float_g", "float_g_bnd"} -> "g"
                 [] c.opt.kind \in {"float_mg", "float_mg_bnd"} -> "mg" [] OTHER -> ""
+        cfirst == CASE c.opt.kind \in {"c+", "cc+"} -> 1 [] c.opt.kind \in {"c-", "cc-"} -> -1 [] OTHER -> 0
+        slotOf(x) == IF x \in DOMAIN sd.cands THEN sd.cands[x] ELSE <<x>>
     IN [top |-> "A",
         finals |-> sd.finals,
         lines |-> [i \in 1..Len(sd.lines) |->
                      [core |-> sd.lines[i].core, outs |-> sd.lines[i].outs,
                       pbreak |-> (c.opt.kind = "pbreak" /\ c.opt.at = i) \/ (c.opt.kind = "pball" /\ sd.lines[i].core = "A"),
+                      cbreak |-> ~(c.opt.kind \in {"cc+", "cc-"} /\ first \in Range(slotOf(sd.lines[i].core))),
                       ll |-> IF c.opt.at = i /\ c.opt.kind = "l0" THEN {0}
                              ELSE IF c.opt.at = i /\ c.opt.kind = "l1" THEN {1} ELSE {}]],
         cands |-> sd.cands,
         qn |-> [n \in {"A"} \cup Range(sd.finals) |-> SchemeQN(c.scheme)[n]] @@ c.qn,
+        cq |-> [r \in res |-> IF r = first THEN cfirst ELSE 0],
         float |-> [r \in res |-> IF r = first THEN fl ELSE ""],
         bnd |-> IF c.opt.kind \in {"bnd", "float_g_bnd", "float_mg_bnd"} THEN {first} ELSE {}]
 
@@ -174,7 +184,7 @@ ExpandLine(b, i) ==
     IN [k \in 1..(Len(cs) * n) |->
           [core |-> cs[((k - 1) \div n) + 1],
            outs |-> <<o1[(((k - 1) % n) \div Len(o2)) + 1], o2[((k - 1) % Len(o2)) + 1]>>,
-           pbreak |-> ln.pbreak, ll |-> ln.ll, line |-> i]]
+           pbreak |-> ln.pbreak, cbreak |-> ln.cbreak, ll |-> ln.ll, line |-> i]]
 Expand(b) == Flatten([i \in 1..Len(b.lines) |-> ExpandLine(b, i)])
 
 \* ordered construction (BaseParticle.chain_decay): chains as sequences of indices into E,
@@ -208,7 +218,8 @@ LeavesOK(b, E, t) ==
 AllowedOf(b, d) ==
     LET c == [ja2 |-> b.qn[d.core][1], jb2 |-> b.qn[d.outs[1]][1], jc2 |-> b.qn[d.outs[2]][1],
               pa |-> b.qn[d.core][2], pb |-> b.qn[d.outs[1]][2], pc |-> b.qn[d.outs[2]][2],
-              pbreak |-> d.pbreak, ca |-> 0]
+              pbreak |-> d.pbreak,
+              ca |-> IF d.cbreak \/ d.core \notin DOMAIN b.cq THEN 0 ELSE b.cq[d.core]]
     IN IF d.ll = {} THEN LS!Allowed(c) ELSE LS!RestrictL(c, d.ll)
 
 DecId(d) == <<d.core, {d.outs[1], d.outs[2]}>>       \* identity of a decay: mother, daughter set
@@ -271,7 +282,7 @@ Bounded(b) == Sem(b).bounded
 \* candidate lists written out: one line per concrete decay, no named lists
 Flat(b) ==
     LET E == Expand(b)
-    IN [b EXCEPT !.lines = [i \in 1..Len(E) |-> [core |-> E[i].core, outs |-> E[i].outs, pbreak |-> E[i].pbreak, ll |-> E[i].ll]],
+    IN [b EXCEPT !.lines = [i \in 1..Len(E) |-> [core |-> E[i].core, outs |-> E[i].outs, pbreak |-> E[i].pbreak, cbreak |-> E[i].cbreak, ll |-> E[i].ll]],
                  !.cands = NoCands]
 \* lines in the opposite order (list order is content only for "the first chain")
 RevLines(b) == [b EXCEPT !.lines = Reverse(b.lines)]
@@ -306,7 +317,7 @@ FromLine(b, d) ==
     IN /\ d.core \in Range(Cand(b, ln.core))
        /\ d.outs[1] \in Range(Cand(b, ln.outs[1]))
        /\ d.outs[2] \in Range(Cand(b, ln.outs[2]))
-       /\ d.pbreak = ln.pbreak /\ d.ll = ln.ll
+       /\ d.pbreak = ln.pbreak /\ d.cbreak = ln.cbreak /\ d.ll = ln.ll
 ChainShapeP(b, s) ==
     LET E == s.E
     IN \A t \in s.kept :
@@ -338,6 +349,10 @@ LineOrderP(b, s) ==
 MirrorSameChainsP(b, s) ==
     LET m == Sem(Mirror(b))
     IN m.keptIds = s.keptIds /\ Cardinality(m.names) = Cardinality(s.names)
+\* a C quantum number matters only where a decay asks for the C-parity rule
+CUnusedP(b, s) ==
+    ((\E r \in DOMAIN b.cq : b.cq[r] # 0) /\ (\A i \in 1..Len(b.lines) : b.lines[i].cbreak))
+        => Denotes(Sem([b EXCEPT !.cq = [r \in DOMAIN b.cq |-> 0]])) = Denotes(s)
 NamesConsistentP(b, s) ==
     /\ s.fixed \subseteq s.names
     /\ DOMAIN s.bounded \subseteq s.names
@@ -358,13 +373,14 @@ DroppedIff == DroppedIffP(B, Sem(B))
 FlatEquivalent == FlatEquivalentP(B, Sem(B))
 LineOrder == LineOrderP(B, Sem(B))
 MirrorSameChains == MirrorSameChainsP(B, Sem(B))
+CUnused == CUnusedP(B, Sem(B))
 NamesConsistent == NamesConsistentP(B, Sem(B))
 Theorems ==
     LET b == Body(card)
         s == Sem(b)
     IN /\ WellFormedP(b, s) /\ SeqIsSetP(b, s) /\ ChainShapeP(b, s) /\ KeptSubsetP(b, s)
        /\ DroppedIffP(b, s) /\ FlatEquivalentP(b, s) /\ LineOrderP(b, s) /\ MirrorSameChainsP(b, s)
-       /\ NamesConsistentP(b, s)
+       /\ CUnusedP(b, s) /\ NamesConsistentP(b, s)
 
 CardOut(c) ==
     LET b == Body(c)
@@ -373,7 +389,7 @@ CardOut(c) ==
         qnsel |-> c.qn,
         top |-> b.top, finals |-> b.finals, lines |-> b.lines, cands |-> b.cands,
         slots |-> DOMAIN b.cands,
-        qn |-> b.qn, float |-> b.float, bnd |-> b.bnd,
+        qn |-> b.qn, cq |-> b.cq, float |-> b.float, bnd |-> b.bnd,
         expand |-> s.E,
         allowed |-> s.al,
         trees |-> Cardinality(s.trees),
